@@ -17,7 +17,7 @@
 import json, os, re, threading, time
 import vlib
 
-VF = ["Wsq/WsqModel.v", "Wsq/WsqLists.v", "Wsq/WsqInv.v", "Wsq/WsqProofs.v", "Wsq/TsoModel.v", "Wsq/TsoProofs.v"]
+VF = ["Wsq/WsqModel.v", "Wsq/WsqLists.v", "Wsq/WsqInv.v", "Wsq/WsqProofs.v", "Wsq/WsqRefine.v", "Wsq/TsoModel.v", "Wsq/TsoProofs.v", "Wsq/TsoLock.v"]
 SIZES = (4, 8, 16)
 POINT_IDS = ["wsq.push.readtop", "wsq.push.recentre", "wsq.push.slot", "wsq.push.top",
              "wsq.pop.quick", "wsq.pop.readtop", "wsq.pop.writetop", "wsq.pop.readbase", "wsq.pop.fastslot",
@@ -524,7 +524,8 @@ def judge_unit(ctx, cases, impl, model, evidence=True):
 
 def gen_seq_lines(ctx, n):
     r = ctx.rng
-    lines = ["P1 P2 W0 W1 O", "P1 S2 W1 W1 W1", "W0 W1 O", "P1 W0 W0 O", "S5 W0 W1"]
+    lines = ["P1 P2 W0 W1 O", "P1 S2 W1 W1 W1", "W0 W1 O", "P1 W0 W0 O", "S5 W0 W1",
+             "Q P1 Q Q P2 Q W0 Q W1 Q O Q", "P1 P2 Q O Q O Q", "S1 Q S2 Q W1 Q W1 Q"]
     for k in range(n):
         t = Tags()
         ops, live = [], 0
@@ -534,8 +535,10 @@ def gen_seq_lines(ctx, n):
                 ops.append("P%d" % t.new()); live += 1
             elif x < 50 and live < 6:
                 ops.append("S%d" % t.new()); live += 1
-            elif x < 70:
+            elif x < 60:
                 ops.append("W0")
+            elif x < 72:
+                ops.append("Q")
             elif x < 85:
                 ops.append("W1"); live = max(0, live - 1)
             else:
@@ -548,7 +551,7 @@ def gen_seq_lines(ctx, n):
 def run_seq(ctx, b, lines):
     """wsapi functions of the real library one operation at a time; model run from the same start
     snapshot.  Returns (diffs, oracle failures, n ops)."""
-    rc, out = vlib.sh([b["lib16"], "seq"], input="\n".join(lines) + "\n", timeout=120,
+    rc, out = vlib.sh([b["lib16"], "seq"], input="\n".join(lines) + "\n", timeout=60,
                       env=dict(os.environ, MYTH_NUM_WORKERS="1"))
     outl = [l for l in out.split("\n") if l.startswith("@")]
     diffs, fails, nops = [], [], 0
@@ -576,10 +579,11 @@ def run_seq(ctx, b, lines):
         ins, outv = [], []
         for s in steps:
             now = s["words"] + ":" + s["slots"]
-            if s["op"] == "W0":
+            if s["op"] in ("W0", "Q"):
                 bw, nw = before.split(":")[0].split(","), s["words"].split(",")
-                if s["ret"] != "0" or bw[:3] != nw[:3] or before.split(":")[1] != s["slots"]:
-                    fails.append((ops, canon, "declined steal changed the queue: before %s after %s ret %s" % (before, now, s["ret"])))
+                if (s["op"] == "W0" and s["ret"] != "0") or bw[:3] != nw[:3] or before.split(":")[1] != s["slots"]:
+                    fails.append((ops, canon, "%s changed the queue: before %s after %s ret %s" % (
+                        "declined steal" if s["op"] == "W0" else "peek", before, now, s["ret"])))
             if s["op"][0] == "P" or (s["op"][0] == "S" and s["ret"] == "1"):
                 ins.append(int(s["op"][1:]))
             if s["op"] in ("O", "W1") and s["ret"] != "0":
@@ -595,7 +599,9 @@ def run_smoke(ctx, b):
     for w in (1, 2, 3, 4):
         nt, ny = 300, 5
         t0 = time.time()
-        rc, out = vlib.sh([b["lib"], "smoke", str(nt), str(ny), str(ctx.seed)], timeout=120,
+        if fails:
+            break                      # a hang once is enough (each costs the full timeout)
+        rc, out = vlib.sh([b["lib"], "smoke", str(nt), str(ny), str(ctx.seed)], timeout=40,
                           env=dict(os.environ, MYTH_NUM_WORKERS=str(w)))
         m = re.search(r"smoke threads=(\d+) runs_min=(-?\d+) runs_max=(-?\d+) sum=(\d+) expected=(\d+)", out)
         res.append({"workers": w, "threads": nt, "yields": ny, "exit": rc, "out": out.strip()[-200:],
